@@ -29,19 +29,21 @@ class _Gen:
         return abs(R.of(a)) if self.w.symbolic else abs(a)
 
     def pos(self, r, a):
-        """a if r > 0 else 0"""
-        return R.ite(R.of(r) > 0, R.of(a), R.const(0)) if self.w.symbolic else (a if r > 0 else 0.0)
+        """a() if r > 0 else 0   (a is a thunk: natively the quotient is only evaluated where it is used)"""
+        if self.w.symbolic:
+            return R.ite(R.of(r) > 0, R.of(a()), R.const(0))
+        return a() if r > 0 else 0.0
 
 
 def spec(name, r, g):
     """the published closed form, extended by continuity where the quotient form has a removable singularity"""
     mn, mx, ab = g.mn, g.mx, g.ab
     if name == 'CHARM':
-        return g.pos(r, r * (3 * r + 1) / ((r + 1) * (r + 1)))
+        return g.pos(r, lambda: r * (3 * r + 1) / ((r + 1) * (r + 1)))
     if name == 'HCUS':
-        return g.pos(r, 3 * r / (r + 2))
+        return g.pos(r, lambda: 3 * r / (r + 2))
     if name == 'HQUICK':
-        return g.pos(r, 4 * r / (r + 3))
+        return g.pos(r, lambda: 4 * r / (r + 3))
     if name == 'ospre':
         return 1.5 * (r * r + r) / (r * r + r + 1)
     if name == 'VanLeer':
